@@ -132,6 +132,77 @@ def internal_ops(rng, tier):
         for u in (p, p + 1, p - 1, p + rng.getrandbits(rng.choice([8, 64, 64 * xl]))):
             if len(limbs_of(u)) >= 6: yield "mpn_rootrem_i_norem %s %x" % (vec(limbs_of(u)), k)
 
+def _rr_sched(logk, b):
+    """the list sizes[] of rootrem.c:215-233"""
+    out = []
+    while b != 0:
+        out.append(b); c = (b + logk + 1) // 2
+        if c >= b: c = b - 1
+        b = c
+    return out + [0]
+
+def schedule_ops(rng, tier):
+    """walk the schedule sizes[] of mpn_rootrem_internal on purpose: root bit counts xnb = 2^j - 1, 2^j, 2^j + 1 (every
+    length ni of the halving phase), and xnb - 1 around logk + 1 = the point where the schedule switches to one bit per
+    round (beta = 2): xnb - 1 in logk - 1 .. logk + 4, for k at and around powers of two (logk changes at 2^j + 1).
+    Operands: r^k, r^k -+ 1, (r+1)^k - 1 for structured roots r of exactly xnb bits, and uniform/sparse operands of every
+    bit length k (xnb - 1) + 1 + r, r in {0, k - 1, random} (first and last operand of the root's bit window)."""
+    quick = tier == "quick"
+    lim = 6400 if quick else 40000           # operand bits
+    ks = [2, 3, 4, 5, 7, 8, 9, 15, 16, 17, 31, 32, 33, 63, 64, 65, 127, 128, 129, 255, 256, 257, 1023, 1025]
+    if quick: ks = [2, 3, 5, 8, 9, 17, 32, 33, 65, 129, 257]
+    seen = set()
+    def emit(u, k, both=True):
+        if u <= 0 or len(limbs_of(u)) < 6 or u.bit_length() > lim + 64: return
+        if (u, k) in seen: return
+        seen.add((u, k))
+        yield "mpn_rootrem_i %s %x" % (vec(limbs_of(u)), k)
+        if both: yield "mpn_rootrem_i_norem %s %x" % (vec(limbs_of(u)), k)
+    def window(k, xnb, full):
+        T = xnb - 1
+        if T < 1 or k * xnb > lim: return
+        roots = [(1 << xnb) - 1, 1 << T, (1 << T) + 1, rng.getrandbits(xnb) | (1 << T), rrandomb(rng, xnb) | (1 << T)]
+        for r in (roots if full else roots[:1] + roots[3:4]):
+            p = r ** k
+            for u in ((p, p - 1, p + 1, (r + 1) ** k - 1) if full else (p, p + 1)):
+                if u.bit_length() > k * T: yield from emit(u, k)
+        for rr in ((0, k - 1) if quick else (0, k - 1, rng.randrange(k))):
+            nb = k * T + 1 + rr
+            u = rng.getrandbits(nb) | (1 << (nb - 1))
+            yield from emit(u, k, both=False)
+            u = (1 << nb) - 1 - rng.getrandbits(rng.choice([1, 8, 64]))
+            yield from emit(u, k, both=False)
+            yield from emit(1 << (nb - 1), k)
+    for k in ks:
+        logk = (k - 1).bit_length()
+        lens = set()
+        for j in range(1, 14 if quick else 16):
+            for xnb in ((1 << j) - 1, 1 << j, (1 << j) + 1):
+                if xnb >= 2 and k * xnb <= lim:
+                    lens.add(len(_rr_sched(logk, xnb - 1)))
+                    yield from window(k, xnb, full=(not quick or (xnb == (1 << j) + 1 and j <= 7)))
+        # the switch to single bits: T = logk + 1 is the first size reached by the halving phase
+        for T in range(max(1, logk - 1), logk + 6):
+            yield from window(k, T + 1, full=(not quick or T in (logk + 1, logk + 2)))
+        # every schedule length that fits: smallest T with that many rounds
+        for ni in range(2, 40):
+            T = next((t for t in range(1, lim // k) if len(_rr_sched(logk, t)) == ni + 1), None)
+            if T is not None and (ni + 1) not in lens: yield from window(k, T + 1, full=False)
+    # huge indices with a root of 2..4 bits: every round has beta = 2
+    for k in (1000, 1 << 12, (1 << 12) + 1) + (() if quick else (1 << 14, 40000)):
+        for T in (1, 2, 3):
+            if k * (T + 1) > (20000 if quick else 200000): continue
+            for rr in (0, k - 1, rng.randrange(k)):
+                nb = k * T + 1 + rr
+                u = rng.getrandbits(nb) | (1 << (nb - 1))
+                yield "mpn_rootrem_i %s %x" % (vec(limbs_of(u)), k)
+                yield "mpn_rootrem_i_norem %s %x" % (vec(limbs_of((1 << nb) - 1)), k)
+            for r in range(1 << T, 1 << (T + 1)):
+                yield "mpn_rootrem_i %s %x" % (vec(limbs_of(r ** k)), k)
+                yield "mpn_rootrem_i_norem %s %x" % (vec(limbs_of(r ** k + 1)), k)
+                if r > 2: yield "mpn_rootrem_i %s %x" % (vec(limbs_of(r ** k - 1)), k)
+
 def gen_ops(rng, tier, ctx=None):
     yield from basecase_ops(rng, tier)
     yield from internal_ops(rng, tier)
+    yield from schedule_ops(rng, tier)
